@@ -252,6 +252,23 @@ def run_schedules(res, spec):
         except Exception as exc:  # noqa: BLE001
             res.violation(check, f"from_dict-raised:{type(exc).__name__}", spec=spec, history=hist, error=repr(exc)[:200])
     res.add("states", len(seen))
+    # a sibling instance with the SAME name but different durations, round
+    # tripped in between: nothing may be remembered by name across calls
+    sib_spec = tuple(tuple((ms, d + 1) for ms, d in job) for job in spec)
+    sib_ref = Ref(sib_spec)
+    sib = impl.mk_instance(sib_spec)
+    first = next(ref.all_histories())
+    for which_ref, which_inst, which_spec in ((sib_ref, sib, sib_spec), (ref, inst, spec), (sib_ref, sib, sib_spec)):
+        d = impl.mk_dispatcher(which_inst)
+        impl.replay(d, first)
+        want = impl.snap_schedule(d.schedule)
+        td = json.loads(json.dumps(d.schedule.to_dict()))
+        try:
+            R = Schedule.from_dict(**td)
+            if impl.snap_schedule(R) != want or content(R.instance) != expected_content(which_spec):
+                res.violation(check, "from_dict-differs-after-other-instance-with-same-name", spec=which_spec, other=spec if which_spec is sib_spec else sib_spec, history=first, observed=impl.snap_schedule(R), expected=want)
+        except Exception as exc:  # noqa: BLE001
+            res.violation(check, f"from_dict-raised-after-other-instance-with-same-name:{type(exc).__name__}", spec=which_spec, history=first, error=repr(exc)[:200])
 
 
 # ---------------------------------------------------------------------------
